@@ -805,7 +805,8 @@ def scan_recorded_index(body, vec_expr, idx_expr, need_rev):
                         keys.append((bb2, strip_sites(a[1])))
         if not keys:
             return False, "nothing is recorded into the edit list"
-        if all(_enumerate_position(body, k, vroot) for bb2, k in keys):
+        from ..editlist import enumerate_position
+        if all(enumerate_position(body, k, vroot) == "exact" for bb2, k in keys):
             return True, "index is the position enumerate() reported for an element of the same vector, applied %s" % (
                 "in descending order" if need_rev else "without length change")
         cvars = {k[1] for bb2, k in keys if k[0] == "var"}
